@@ -117,4 +117,16 @@ def importBlob (b : Bytes) : Except Err Stream :=
   | .error e => .error e
   | .ok f => .ok (importFields f)
 
+/-- `NewStreamWithCryptoState(conn, blob)` with the connection in view: `NewStream(conn)` first
+    records the remote address of the connection the session is continued on (`connAddr`, in sinful
+    form; empty when the connection has none), and the blob's peer address — the ORIGINAL peer —
+    replaces it unless the blob carries none. -/
+def importFieldsAround (connAddr : Bytes) (f : BlobFields) : Stream :=
+  { importFields f with peerAddr := if f.peer.length > 0 then f.peer else connAddr }
+
+def importBlobAround (connAddr : Bytes) (b : Bytes) : Except Err Stream :=
+  match decodeBlob b with
+  | .error e => .error e
+  | .ok f => .ok (importFieldsAround connAddr f)
+
 end Cedar
